@@ -21,13 +21,14 @@ for d in /verif/seeded/*/; do
   case "$name" in *"$filter"*) ;; *) continue ;; esac
   prop=$(python3 -c "import json,sys; print(json.load(open('$d/meta.json'))['breaks_property'])")
   check=$(echo "$prop" | tr 'A-Z' 'a-z')
+  [ -n "${CHECK:-}" ] && check="$CHECK"
   git -C "$wt" checkout -q -- . 
   if ! git -C "$wt" apply "$d/patch.diff" 2>/dev/null; then
     if [ -f "$d/patch.rebased.diff" ] && git -C "$wt" apply "$d/patch.rebased.diff" 2>/dev/null; then :; else
       echo "$name ($prop): APPLY-FAILED"; continue; fi
   fi
   log="$out/$name.log"
-  (cd "$simc" && ./run "$check" --tier quick) >"$log" 2>&1; rc=$?
+  (cd "$simc" && ./run "$check" --tier "${TIER:-quick}") >"$log" 2>&1; rc=$?
   cp "$simc"/sim/target/asan-*.log "$out/" 2>/dev/null
   first=$(grep -m1 -A1 "^VIOLATION" "$log" | tail -1 | cut -c1-150)
   case $rc in
